@@ -112,6 +112,39 @@ type T struct{}
 func (T) M() (int, error)        { return 0, nil }
 func (t *T) P() (x, y string)    { return "a", "b" }
 func UseM(t T) (int, error)      { return t.M() }
+
+// assignments that permute or copy plain locals (a look-up that follows copies must not chase its own statement)
+func Swap(swap bool) any {
+	var a, b any
+	a = "x"
+	b = 1
+	if swap {
+		a, b = b, a
+	}
+	return a
+}
+
+func Ordered(lo, hi int) (first any, second any) {
+	first, second = lo, hi
+	if hi < lo {
+		first, second = second, first
+	}
+	return
+}
+
+func SelfAssign(n int) (x any, err error) {
+	x = n
+	x = x
+	return x, err
+}
+
+func CopyChain() (string, error) {
+	s, err := Self(1)
+	a := s
+	b := a
+	a = b
+	return a, err
+}
 `,
 	})
 	p := u.Package(filepath.Join(root, "a"))
